@@ -8,7 +8,7 @@ C06 — model of the scalar-expression machinery of rulego/streamsql.
                     mode `.w` = evaluateNodeValueWithNull, `.v` = evaluateNodeValue,
                     `.b` = evaluateBoolNode, `.chS`/`.chV` = the WHEN loops of
                     evaluateCaseExpressionWithNull / evaluateCaseExpressionValueWithNull;
-(iii) `handParses`  which ASTs `expr/parser.go` can build (no NOT operator);
+(iii) `handParses`  which ASTs `expr/parser.go` can build (all of the grammar, since the repairs);
 (iv)  `xl`          table model of the expr-lang VM for the operator shapes of the grammar
                     (strict: nil operands raise, `==`/`!=` never raise) — validated by
                     correspondence only (DESIGN §4);
